@@ -138,6 +138,20 @@ CLAIMED["C07"] = dict(
     technique="dispatch classification over the resolved instance graph + guard/branch tables by MIR path enumeration",
 )
 
+CLAIMED["C19"] = dict(
+    category="other",
+    text=("Decided: R19.1 for all 10 geometry types the sequence term of coords_iter (once / chain / copied(iter) / flat_map over members), "
+          "normalised, has under the count homomorphism exactly the value coords_count returns; R19.2 exterior_coords_iter is the exterior "
+          "ring (Polygon), flat_map of exteriors (MultiPolygon, GeometryCollection) or the whole traversal, and the MapCoordsIter adapters map "
+          "with the right method; R19.5 merge-fold table of GeometryCollection::bounding_rect; R19.6 every trait method implemented for the "
+          "Geometry enum by variant match calls the same-named method in every arm; R19.7 two-item table of extremes (each record replaced "
+          "exactly under the strict comparison on its own axis, index and coord from the same item). Not decided in this revision: "
+          "map_coords sibling agreement, lines_iter pairs, size hints, failing closures."),
+    design_ref="DESIGN.md §4 C19",
+    note="Trusted: iterator adaptor semantics encoded in the sequence normaliser; induction over members.",
+    technique="sequence-term extraction from MIR + homomorphism comparison; decision tables for folds",
+)
+
 NOT_YET = "rule set not implemented in this revision of /verif (see DESIGN.md §7 build order); nothing is claimed"
 NA = {}
 
